@@ -35,7 +35,9 @@ def run(ctx):
         "operations_executed": len(steps), "operations_that_raised": sum(1 for s in steps if s["raised"]),
         "nodes_named": sum(len(r.get("nodes", [])) for r in results),
         "rule": "spec/FluentNames.tla!Generate: (N) all unordered pairs of programs (one or two of map{two lambdas, two defs "
-                "called f, partials with equal/different arguments} / add scalar / sum) over a shared source; (S) pairs of "
+                "called f, partials with equal/different arguments} / add scalar / sum) over a shared source; (P) the same binary operation with swapped operands (a.op(b) / "
+                "b.op(a) for add, subtract, multiply, divide, power) and reduce(f) over the join of three actions in every pair of "
+                "orders; (S) pairs of "
                 "sources from those callables created by one or two from_source calls; (O) receiver in {A, A.map, D} x one or "
                 "two operations from {add, subtract, multiply, divide, power, join (match / no match / along x), broadcast} with "
                 "operands whose coordinates differ, and {map, add scalar, sum, sum keep_dim, mean, select, isel, stack, "
